@@ -11,7 +11,7 @@ core_ports.Port defined here, the two methods of the port's own asyncio.Queue in
 module attribute `main.update` are wrapped from outside.
 
 Ports of a schedule (template `ports`): name -> {"writable": bool, "expr": str|None, "rlat": ms|None, "wlat": ms|None,
-"late": bool}.  `rlat`/`wlat` None = the driver call stays suspended until a CompleteRead/CompleteWrite command; a number =
+"late": bool, "plain": bool}.  `plain` = read_value/write_value are plain methods returning a scheduled future.  `rlat`/`wlat` None = the driver call stays suspended until a CompleteRead/CompleteWrite command; a number =
 it completes by itself after that many virtual ms.  A `late` port does not exist until the `Load` command, which creates it
 through the real `core_ports.load` with persisted data {"enabled": true, "value": v} (persist.get is faked).
 
@@ -29,6 +29,7 @@ Events (per port; see coq/theories/C14/Model.v):
   ["Told", t, "ok"|"exc"|"qf", "api"|"expr"|"seq"]     transform_and_write_value returned / raised to that submitter
   ["ApiTold", t, bool]                                 patch_port_value answered 204/202 (true) or an error (false)
   ["Disable"] ["Enable"]                               disable()/enable() changed _enabled
+  ["ApiUnqueued", v]                                   patch_port_value answered 204/202 without submitting the value
   ["Discard", t]                                       an entry left the queue neither by the write loop nor by the overflow rule
 """
 import asyncio
@@ -205,7 +206,17 @@ class Env:
                 finally:
                     self.waiting.pop(task, None)
 
+            # Two kinds of driver: `async def read_value/write_value` (a coroutine the hub awaits) and plain methods that
+            # return an already scheduled future (the shape of `loop.run_in_executor(...)` around blocking I/O).  Either way
+            # the call is logged as started when the hub calls the method and as ended when the scheduled work finishes,
+            # whether or not anybody waits for it.
             async def read_value(self):
+                return await self._read_finish(*self._read_begin())
+
+            def read_value_plain(self):
+                return asyncio.ensure_future(self._read_finish(*self._read_begin()))
+
+            def _read_begin(self):
                 src = self._src()
                 self.waiting.pop(asyncio.current_task(), None)
                 env.run.log(self.get_id(), 'ReadStart', src)
@@ -214,6 +225,9 @@ class Env:
                 self.pending_reads.append(fut)
                 if self.RLAT is not None:
                     loop.call_later(self.RLAT / 1000.0, self.complete_read, 'val', fut)
+                return src, fut
+
+            async def _read_finish(self, src, fut):
                 try:
                     outcome = await fut
                 finally:
@@ -240,6 +254,12 @@ class Env:
                 return True
 
             async def write_value(self, value):
+                return await self._write_finish(*self._write_begin(value))
+
+            def write_value_plain(self, value):
+                return asyncio.ensure_future(self._write_finish(*self._write_begin(value)))
+
+            def _write_begin(self, value):
                 in_loop = asyncio.current_task() is self._write_value_task
                 env.run.log(self.get_id(), 'WriteStart' if in_loop else 'DirectStart', num(value))
                 loop = asyncio.get_running_loop()
@@ -247,6 +267,9 @@ class Env:
                 self.pending_writes.append(fut)
                 if self.WLAT is not None:
                     loop.call_later(self.WLAT / 1000.0, self.complete_write, 'ok', fut)
+                return in_loop, fut, value
+
+            async def _write_finish(self, in_loop, fut, value):
                 try:
                     outcome = await fut
                 finally:
@@ -368,7 +391,7 @@ class Run:
     def anomaly(self, pid, what):
         self.anomalies.append({'port': pid, 'what': what, 'at': self.seq})
 
-    def spawn(self, coro, label, api_port=None):
+    def spawn(self, coro, label, api_port=None, api_value=None):
         async def runner():
             ok = True
             try:
@@ -387,6 +410,9 @@ class Run:
                 t = port.api_ticket.pop(asyncio.current_task(), None) if port is not None else None
                 if t is not None:       # the request got as far as submitting a value
                     self.log(api_port, 'ApiTold', t, ok)
+                elif ok and port is not None:
+                    # answered 204/202 although nothing was handed to the write queue
+                    self.log(api_port, 'ApiUnqueued', num(api_value))
         t = asyncio.get_running_loop().create_task(runner())
         if api_port is not None:
             self.api_tasks[t] = api_port
@@ -423,6 +449,9 @@ class Run:
         env = self.env
         attrs = {'WRITABLE': bool(spec.get('writable')), 'RLAT': spec.get('rlat'), 'WLAT': spec.get('wlat'),
                  'PERSISTED': bool(spec.get('late')), 'WRITE_VALUE_QUEUE_SIZE': self.sched['cap']}
+        if spec.get('plain'):
+            attrs['read_value'] = env.HPort.read_value_plain
+            attrs['write_value'] = env.HPort.write_value_plain
         cls = type('HPort_' + name, (env.HPort,), attrs)
         return cls
 
@@ -513,7 +542,7 @@ class Run:
         elif name == 'ApiWrite':
             pid, v = cmd[1], cmd[2]
             h = env.handler('PATCH', '/api/ports/%s/value' % pid, json.dumps(v).encode())
-            self.spawn(env.api_ports.patch_port_value(h, pid, v), 'ApiWrite %s %s' % (pid, v), api_port=pid)
+            self.spawn(env.api_ports.patch_port_value(h, pid, v), 'ApiWrite %s %s' % (pid, v), api_port=pid, api_value=v)
         elif name == 'SetSequence':
             pid, values, delays, repeat = cmd[1:5]
             params = {'values': values, 'delays': delays, 'repeat': repeat}
